@@ -317,6 +317,12 @@ pub fn check(ctx: &mut Ctx, case: &Case) -> Result<(), String> {
                     }
                 } else {
                     ctx.class("register/without-results");
+                    // an authenticator that evaluates at creation, given default inputs: either the new credential holds the
+                    // secret this ceremony needs (a result is due) or it does not (an error is due) -- not a silent success
+                    if case.hmac.on_mc() && eff.is_some_and(|e| e.eval.is_some()) {
+                        let has_secret = if uv_flag { s.hmac_uv.is_some() } else { s.hmac_no_uv.is_some() };
+                        return Err(format!("registration on an authenticator that evaluates PRF inputs at creation succeeded without a result although default inputs were given (user verified: {uv_flag}, the new credential holds the secret such a ceremony uses: {has_secret})"));
+                    }
                 }
                 Ok(())
             }
@@ -472,6 +478,12 @@ fn check_ctap(ctx: &mut Ctx, case: &Case, mut auth: passkey_authenticator::Authe
                 if o.enabled != stored_secret {
                     return Err(format!("registration reports enabled = {} but secrets stored with the credential = {stored_secret} (CTAP level)", o.enabled));
                 }
+            }
+            let eval_sent = case.uv_req & 8 == 0 && h.eval.is_some();
+            if case.hmac.on_mc() && eval_sent && out.map_or(true, |o| o.results.is_none()) {
+                let uv_flag = resp.auth_data.to_vec()[32] & UV != 0;
+                let has_secret = new.first().is_some_and(|p| if uv_flag { snap(p).hmac_uv.is_some() } else { snap(p).hmac_no_uv.is_some() });
+                return Err(format!("CTAP-level registration on an authenticator that evaluates PRF inputs at creation succeeded without a result although default inputs were given (user verified: {uv_flag}, the new credential holds the secret such a ceremony uses: {has_secret})"));
             }
         }
         return Ok(());
